@@ -7,6 +7,7 @@ package main
 import (
 	"fmt"
 	"math/rand"
+	"reflect"
 	"strconv"
 
 	"github.com/uhn/ggql/pkg/ggql"
@@ -20,13 +21,41 @@ func (w *world) reflectCall(id int, field int, pos []interface{}) (interface{}, 
 	n := w.nodes[id]
 	args := map[string]interface{}{}
 	if n != nil {
-		for i, a := range w.decl[[2]int{n.gotype, field}] {
+		order := w.decl[[2]int{n.gotype, field}]
+		if ro, ok := w.regOrder[[2]int{n.gotype, field}]; ok {
+			order = ro // the Go parameter order given to RegisterField
+		}
+		for i, a := range order {
 			if i < len(pos) {
 				args["a"+strconv.Itoa(a)] = pos[i]
 			}
 		}
 	}
-	return w.resolve(id, &ggql.Field{Name: "f" + strconv.Itoa(field)}, args)
+	v, err := w.resolve(id, &ggql.Field{Name: "f" + strconv.Itoa(field)}, args)
+	return typedSlice(v), err
+}
+
+// typedSlice turns a list whose elements are all pointers of one Go type into a slice of that
+// type ([]*F20 instead of []interface{}): the shape a Go program naturally returns
+func typedSlice(v interface{}) interface{} {
+	l, ok := v.([]interface{})
+	if !ok || len(l) < 2 {
+		return v
+	}
+	t := reflect.TypeOf(l[0])
+	if t == nil || t.Kind() != reflect.Ptr {
+		return v
+	}
+	for _, e := range l {
+		if reflect.TypeOf(e) != t {
+			return v
+		}
+	}
+	out := reflect.MakeSlice(reflect.SliceOf(t), 0, len(l))
+	for _, e := range l {
+		out = reflect.Append(out, reflect.ValueOf(e))
+	}
+	return out.Interface()
 }
 
 type c02SchemaObj struct {
@@ -47,7 +76,8 @@ func c02Exec(input sx.S) (obs sx.S) {
 	out := []sx.S{"runs"}
 	for _, asg := range section(secs, "assignments") {
 		al := sx.List(asg)
-		register := al[1].(string) == "1"
+		register := al[1].(string) != "0"
+		regFields := al[1].(string) == "2"
 		strat := map[int]byte{}
 		anyUsed, reflUsed := false, false
 		for _, p := range al[2:] {
@@ -61,19 +91,19 @@ func c02Exec(input sx.S) (obs sx.S) {
 				reflUsed = true
 			}
 		}
-		out = append(out, c02Run(secs, strat, register, anyUsed, reflUsed))
+		out = append(out, c02Run(secs, strat, register, regFields, anyUsed, reflUsed))
 	}
 	return out
 }
 
-func c02Run(secs []sx.S, strat map[int]byte, register, anyUsed, reflUsed bool) (obs sx.S) {
+func c02Run(secs []sx.S, strat map[int]byte, register, regFields, anyUsed, reflUsed bool) (obs sx.S) {
 	defer func() {
 		if r := recover(); r != nil {
 			obs = sx.L("panic", sx.Hex(fmt.Sprint(r)))
 		}
 	}()
 	// the world as in execSetup, with the assignment of this run
-	w := &world{nodes: map[int]*gnode{}, strat: map[int]bool{}, objs: map[int]interface{}{}, decl: map[[2]int][]int{}, strat3: strat}
+	w := &world{nodes: map[int]*gnode{}, strat: map[int]bool{}, objs: map[int]interface{}{}, decl: map[[2]int][]int{}, strat3: strat, regOrder: map[[2]int][]int{}}
 	for _, n := range section(secs, "graph") {
 		nl := sx.List(n)
 		gn := &gnode{gotype: sx.Int(nl[2]), fields: map[int]behav{}}
@@ -137,6 +167,26 @@ func c02Run(secs []sx.S, strat map[int]byte, register, anyUsed, reflUsed bool) (
 					return sx.L("register-error", sx.Hex(err.Error()))
 				}
 			}
+		}
+	}
+	if regFields {
+		// explicit field registration with the Go parameters in the reverse of the SDL order
+		for key, names := range w.decl {
+			if strat[key[0]] != 'F' || len(names) < 2 {
+				continue
+			}
+			rev := make([]int, len(names))
+			strs := make([]string, len(names))
+			for i, n := range names {
+				rev[len(names)-1-i] = n
+			}
+			for i, n := range rev {
+				strs[i] = "a" + strconv.Itoa(n)
+			}
+			if err := root.RegisterField(typeName(key[0]), "f"+strconv.Itoa(key[1]), "F"+strconv.Itoa(key[1]), strs...); err != nil {
+				return sx.L("register-error", sx.Hex(err.Error()))
+			}
+			w.regOrder[key] = rev
 		}
 	}
 	text, _ := docText(section(secs, "doc"))
@@ -251,7 +301,7 @@ func c02Gen(r *rand.Rand, tier string) []Case {
 			}
 			return a
 		}
-		asg := []sx.S{"assignments", all("R", 1), all("A", 1), all("F", 1), all("F", 0), mix("RA", 1), mix("RF", 1), mix("RF", 0)}
+		asg := []sx.S{"assignments", all("R", 1), all("A", 1), all("F", 1), all("F", 0), mix("RA", 1), mix("RF", 1), mix("RF", 0), all("F", 2)}
 		c.Input = append(sx.List(c.Input), asg)
 		c.Tags = append(c.Tags, "nontrivial")
 		out = append(out, c)
